@@ -93,7 +93,11 @@ class Lib:
                 # a direct base that is also an indirect base is ambiguous (the conversion to it is ill-formed): keep one
                 anc = {x['name']: self.ancestors(x['name']) for x in bases}
                 bases = [x for x in bases if not any(x['name'] in anc[y['name']] for y in bases if y is not x)]
-            c = {'name': name, 'bases': bases, 'methods': [], 'fields': [], 'polymorphic': False}
+            c = {'name': name, 'bases': bases, 'methods': [], 'fields': [], 'polymorphic': False,
+                 # a class with its own copy and move constructors (the move marks its source): passing it by value must copy
+                 'movable': not bases and rng.random() < 0.5,
+                 # operator [] returning a non-const reference: an item-assignment wrapper is synthesized for it
+                 'index': rng.random() < 0.4}
             known = names + [name]
             used_names = set()
             for _ in range(rng.randrange(1, 6)):
@@ -170,6 +174,12 @@ class Lib:
             L.append('class %s%s {' % (c['name'], b))
             L.append('__published:')
             L.append('  %s(int v);' % c['name'])
+            if c['movable']:
+                L.append('  %s(const %s &o);' % (c['name'], c['name']))
+                L.append('  %s(%s &&o);' % (c['name'], c['name']))
+            if c['index']:
+                L.append('  int &operator [](int i);')
+                L.append('  int operator [](int i) const;')
             if c['polymorphic']:
                 L.append('  virtual ~%s();' % c['name'])
             for m in c['methods']:
@@ -182,6 +192,8 @@ class Lib:
             L.append('  mutable char buf_%s[64];' % c['name'])
             if self.use_string:
                 L.append('  mutable std::string sbuf_%s;' % c['name'])
+            if c['index']:
+                L.append('  int cell_%s[4];' % c['name'])
             L.append('};')
         if self.use_template:
             L.append('template<class T> class Box {')
@@ -285,7 +297,28 @@ class Lib:
                 else:
                     L.append('  %s = (%s)1;' % (f['name'], f['src']))
             L.append('  buf_%s[0] = 0;' % c['name'])
+            if c['index']:
+                L.append('  for (int i = 0; i < 4; ++i) cell_%s[i] = v * 10 + i;' % c['name'])
             L.append('}')
+            if c['movable']:
+                for mv in (False, True):
+                    L.append('%s::%s(%s o) {' % (c['name'], c['name'], ('%s &&' if mv else 'const %s &') % c['name']))
+                    L.append('  state_%s = o.state_%s; memcpy(buf_%s, o.buf_%s, sizeof(buf_%s));' % ((c['name'],) * 5))
+                    if self.use_string:
+                        L.append('  sbuf_%s = o.sbuf_%s;' % (c['name'], c['name']))
+                    for f in c['fields']:
+                        if f['kind'] == 'iarr':
+                            L.append('  for (int i = 0; i < 3; ++i) %s[i] = o.%s[i];' % (f['name'], f['name']))
+                        else:
+                            L.append('  %s = o.%s;' % (f['name'], f['name']))
+                    if c['index']:
+                        L.append('  for (int i = 0; i < 4; ++i) cell_%s[i] = o.cell_%s[i];' % (c['name'], c['name']))
+                    if mv:
+                        L.append('  o.state_%s = -777;' % c['name'])
+                    L.append('}')
+            if c['index']:
+                L.append('int &%s::operator [](int i) { LOG.push_back("%s::operator []/nc " + std::to_string(i)); return cell_%s[i]; }' % ((c['name'],) * 3))
+                L.append('int %s::operator [](int i) const { LOG.push_back("%s::operator []/c " + std::to_string(i)); return cell_%s[i]; }' % ((c['name'],) * 3))
             if c['polymorphic']:
                 L.append('%s::~%s() {}' % (c['name'], c['name']))
             for m in c['methods']:
